@@ -48,7 +48,7 @@ def run(module, cfg, env=None, workers=1, timeout=1800, simulate=None, depth=Non
         cfgpath = os.path.join(work, "run.cfg")
         with open(cfgpath, "w") as f:
             f.write(cfgtext)
-        cmd = ["java", "-XX:+UseParallelGC", "-Xmx" + heap]
+        cmd = ["java", "-XX:+UseParallelGC", "-Xmx" + heap, "-Djava.io.tmpdir=" + work]      # TLC's own temp files go with the work directory
         if dfs:
             cmd.append("-Dtlc2.tool.queue.IStateQueue=StateDeque")
         cmd += ["-cp", JAR, "tlc2.TLC", "-workers", str(workers), "-metadir", os.path.join(work, "meta"),
